@@ -465,6 +465,10 @@ class REPEX_state:
                     + datetime.now().strftime(DATE_FORMAT)
                     + "\n"
                 )
+        # never start more jobs than there are steps left to complete,
+        # otherwise the run ends with jobs that are never consumed.
+        if self.toinitiate > 0 and self.cstep + self.cworker >= self.tsteps:
+            self.toinitiate = 0
         if self.toinitiate > 0:
             if self.screen > 0:
                 logger.info(
